@@ -31,6 +31,12 @@ pub fn level_grid(seed: u64, extra: usize) -> Vec<f64> {
     for _ in 0..extra {
         v.push(r.uniform(0.001, 0.9999));
     }
+    // two seeded levels in the tails, log-uniform in the tail probability: code that treats "extreme"
+    // levels specially does so in a band (1-L < 1e-3, L < 1e-2, ...) that a uniform draw almost never
+    // hits and that the fixed ladder 0.99 / 0.999 / 0.9999 only touches at its end points
+    let mut t = Rng::from(&[seed, 0x7a115]);
+    v.push((1.0 - (t.uniform((1.0e-4f64).ln(), (1.0e-2f64).ln())).exp()).min(0.9999));
+    v.push((t.uniform((1.0e-3f64).ln(), (2.0e-2f64).ln())).exp().max(0.001));
     v
 }
 
